@@ -9,6 +9,7 @@ import SedpackDriver.Select
 import SedpackDriver.Path
 import SedpackDriver.Version
 import SedpackDriver.ParMap
+import SedpackDriver.Codec
 open Lean
 namespace Sedpack.Drv
 
@@ -28,6 +29,7 @@ def dispatch (m : String) (j : Json) : Except String Json :=
   | "ver" => verJ j
   | "defaults" => defaultsJ j
   | "pmap" => pmapJ j
+  | "codec" => codecJ j
   | _ => .error s!"unknown model {m}"
 
 end Sedpack.Drv
